@@ -103,6 +103,9 @@ def prop_arms(F, exec_path):
         # helpers of the property module itself (a shared `payload_from(rawdata, start)`, a `cached_or_parse(..)`) are read
         # as part of the arm; the protocol structs' own methods stay calls
         body = H.inline_helpers(F, a["body"], max_size=400, skip=lambda c: not c.startswith("vm::pktprop::") or "exec_prop_" in c)
+        if any(x.get("k") == "let" and x.get("init") is not None and H.strip(x["init"]).get("k") == "closure" for x in H.walk(body)):
+            # the helper takes the getter / setter as closures: apply them
+            body = H.beta(H.unlet(body))
         info = {"line": a.get("line"), "body": body, "raw_body": a["body"]}
         sets = [c for c in H.walk(body) if c.get("k") == "mcall" and c["m"].startswith("set_") and c.get("callee") in F.fns]
         gets = [c for c in H.walk(body) if c.get("k") == "mcall" and c["m"].startswith("get_") and c.get("callee") in F.fns
